@@ -1,0 +1,53 @@
+//go:build verif
+// +build verif
+
+package ion
+
+import "math/big"
+
+// Verification hooks. This file is compiled only with `-tags verif`; it adds
+// exported shims over unexported codecs and one callback variable used by
+// generated instrumentation. It changes no existing behaviour.
+
+// VerifAccess, when non-nil, is called by instrumented builds before every
+// access to package-level or shareable state.
+var VerifAccess func(obj interface{}, loc string, write bool)
+
+func VerifUintLen(v uint64) uint64                     { return uintLen(v) }
+func VerifAppendUint(b []byte, v uint64) []byte        { return appendUint(b, v) }
+func VerifIntLen(v int64) uint64                       { return intLen(v) }
+func VerifAppendInt(b []byte, v int64) []byte          { return appendInt(b, v) }
+func VerifBigIntLen(v *big.Int) uint64                 { return bigIntLen(v) }
+func VerifAppendBigInt(b []byte, v *big.Int) []byte    { return appendBigInt(b, v) }
+func VerifVarUintLen(v uint64) uint64                  { return varUintLen(v) }
+func VerifAppendVarUint(b []byte, v uint64) []byte     { return appendVarUint(b, v) }
+func VerifVarIntLen(v int64) uint64                    { return varIntLen(v) }
+func VerifAppendVarInt(b []byte, v int64) []byte       { return appendVarInt(b, v) }
+func VerifTagLen(l uint64) uint64                      { return tagLen(l) }
+func VerifAppendTag(b []byte, c byte, l uint64) []byte { return appendTag(b, c, l) }
+
+// VerifReadVarUint decodes a VarUInt from bs with the bitstream reader.
+func VerifReadVarUint(bs []byte) (uint64, uint64, error) {
+	var b bitstream
+	b.InitBytes(bs)
+	return b.readVarUintLen(uint64(len(bs)))
+}
+
+// VerifReadVarInt decodes a VarInt from bs with the bitstream reader.
+func VerifReadVarInt(bs []byte) (int64, int64, uint64, error) {
+	var b bitstream
+	b.InitBytes(bs)
+	return b.readVarIntLen(uint64(len(bs)))
+}
+
+// VerifReadBigInt decodes a signed Int field of len(bs) bytes.
+func VerifReadBigInt(bs []byte) (*big.Int, error) {
+	var b bitstream
+	b.InitBytes(bs)
+	ret := new(big.Int)
+	err := b.readBigInt(uint64(len(bs)), ret)
+	return ret, err
+}
+
+// VerifDecimalNegZero exposes the negative-zero flag of a Decimal.
+func VerifDecimalNegZero(d *Decimal) bool { return d.isNegZero }
